@@ -3,6 +3,7 @@ package main
 import (
 	"fmt"
 	"go/types"
+	"os"
 	"runtime/debug"
 	"strings"
 	"time"
@@ -58,6 +59,9 @@ func (e *Engine) verifyFunc(fn *ssa.Function, ct *Contract) (r *FnRun) {
 			switch v := x.(type) {
 			case unsupported:
 				r.fail = "outside subset: " + v.reason
+				if os.Getenv("VCGO_DEBUG") != "" { // development aid
+					fmt.Fprintf(os.Stderr, "%s: %s\n%s\n", ct.Name, v.reason, debug.Stack())
+				}
 			case specFail:
 				r.fail = "contract does not bind: " + v.msg
 			default:
